@@ -102,6 +102,9 @@ type countMinSketchJSON struct {
 
 // Export JSON marshals the CountMinSketch and returns a byte slice containing the data
 func (cms *CountMinSketch) Export() ([]byte, error) {
+	cms.lock.Lock()
+	defer cms.lock.Unlock()
+
 	return json.Marshal(countMinSketchJSON{cms.rows, cms.columns, cms.allSum, cms.matrix, ""})
 }
 
@@ -154,6 +157,9 @@ func (cms *CountMinSketch) Merge(cms1 *CountMinSketch) error {
 // number of bytes written.
 // It can be used to write to disk (using a file stream) or to network.
 func (cms *CountMinSketch) WriteTo(stream io.Writer) (int64, error) {
+	cms.lock.Lock()
+	defer cms.lock.Unlock()
+
 	err := binary.Write(stream, binary.BigEndian, uint64(cms.rows))
 	if err != nil {
 		return 0, err
